@@ -9,7 +9,7 @@ from vlib.pyvc import interp as I
 def proved(run):
     run.trust("pyvc symbolic interpreter over the real AST", f"z3 {z3.get_version_string()}")
     pass
-    for f in (C2.c15,):
+    for f in (C2.c15, C2.c15_closure_step):
         try:
             f(run)
         except (I.OutOfSubset, KeyError) as e:
